@@ -80,6 +80,15 @@ func c17Program(r *rng.R, fuzz bool) (string, []c17Route) {
 		for k := r.Intn(3); k > 0; k-- {
 			rt.Params = append(rt.Params, c17Param{fmt.Sprintf("q%d", k), r.Pick([]string{"query", "header"}), r.Pick([]string{"string", "int32", "bool", "[]string"})})
 		}
+		// a body parameter whose schema reaches a type that nothing else mentions and that carries no swagger:model annotation:
+		// inline envelope struct, named struct, slice and map (each route index has its own helper types)
+		if m := strings.ToUpper(rt.Method); !rt.Yaml && (m == "POST" || m == "PUT" || m == "PATCH") {
+			bodyTy := []string{
+				fmt.Sprintf("struct {\n\t\tPet Pet `json:\"pet\"`\n\t\tTags []Tag%d `json:\"tags\"`\n\t}", i),
+				fmt.Sprintf("Tag%d", i), fmt.Sprintf("[]Tag%d", i), fmt.Sprintf("map[string]Tag%d", i), fmt.Sprintf("*Tag%d", i)}[r.Intn(5)]
+			rt.Params = append(rt.Params, c17Param{"body", "body", bodyTy})
+			fmt.Fprintf(&b, "// Tag%d is reachable through the body of op%d only.\ntype Tag%d struct {\n\tLabel string `json:\"label\"`\n\tWeight int32 `json:\"weight\"`\n}\n\n", i, i, i)
+		}
 		routes = append(routes, rt)
 		tag := ""
 		if rt.Tag != "" {
@@ -151,7 +160,7 @@ var rxPanicFunc = regexp.MustCompile(`codescan\.(\(?\*?\w+\)?\.?\w+)\(`)
 // CheckC17 — generate spec yields a valid, faithful document or an error.
 func CheckC17(run *ev.Run) {
 	r := rng.New(uint64(run.Seed) + 17)
-	nClean, nFuzz := 3, 10
+	nClean, nFuzz := 10, 14
 	if run.Tier == "thorough" {
 		nClean, nFuzz = 30, 300
 	}
